@@ -8,6 +8,7 @@ import (
 	"go/token"
 	"go/types"
 	"sort"
+	"strconv"
 	"strings"
 
 	"golang.org/x/tools/go/ssa"
@@ -294,6 +295,13 @@ func (x *Exec) modEffect(e *Effects, m ast.Expr, scope map[string]types.Type, co
 		}
 	case *ast.CallExpr:
 		id, _ := n.Fun.(*ast.Ident)
+		if id != nil && id.Name == "gh" && len(n.Args) == 2 {
+			if lit, ok := n.Args[0].(*ast.BasicLit); ok {
+				nm, _ := strconv.Unquote(lit.Value)
+				e.keys["G."+nm] = mathInt
+				return
+			}
+		}
 		if id == nil || len(n.Args) != 1 {
 			e.all = true
 			return
@@ -320,6 +328,13 @@ func (x *Exec) modEffect(e *Effects, m ast.Expr, scope map[string]types.Type, co
 			e.all = true
 		case "held":
 			// lock state is not heap
+		case "ghall":
+			if lit, ok := n.Args[0].(*ast.BasicLit); ok {
+				nm, _ := strconv.Unquote(lit.Value)
+				e.keys["G."+nm] = mathInt
+				return
+			}
+			e.all = true
 		default:
 			e.all = true
 		}
@@ -544,6 +559,12 @@ func (x *Exec) call(fr *Frame, st *State, in ssa.Instruction, c *ssa.CallCommon,
 		lbl := x.label(fr.fn, in, "call")
 		for i, a := range fr.con.AssertAt[lbl] {
 			x.specCheck(fr, st, fmt.Sprintf("assert@%s[%d]", lbl, i), "assert", a, nil, in)
+		}
+		if fr.depth == 0 && fr.con.Opts["stop-at"] != "" && "call:"+fr.con.Opts["stop-at"] == lbl {
+			// the contract only speaks about the state reached here: the rest of the function is not explored
+			x.note("exploration of " + x.key + " stops at " + lbl + " (opt stop-at): code after it is not covered by this contract")
+			x.endPath()
+			return
 		}
 	}
 	var args []Val
